@@ -249,6 +249,10 @@ class StoreAdapter(Adapter):
             # root cause: write_not_completed in append mode replaces an existing not-completed record
             # (re-running apply_to relies on it); completed records are protected
             return "dir:append-rewrites-not-completed"
+        if self.kind == "dir" and all(d.startswith("zip") for d in best) and any(ch in i for i in self.ids for ch in "[]*?"):
+            # root cause: ReadOnlyDataStoreZipped looks its members up with Path.match, which reads an identifier as a glob
+            # pattern (gene[1] matches gene1, never itself): the zipped view of a store holding such identifiers differs
+            return "dir:zipped-view:identifier-read-as-glob-pattern:" + ",".join(sorted(best))
         if self.kind == "dir" and all("completed-md5" in d for d in best):
             # root cause: a directory store keeps ONE md5 file (md5/<id>.txt) for the completed
             # and the not-completed record of an identifier
@@ -263,6 +267,9 @@ class StoreAdapter(Adapter):
 
 class DirAdapter(StoreAdapter):
     kind = "dir"
+
+    def obs_matches(self, spec_obs, ctx, real_ret):
+        return spec_obs in (None, "any", "separate-identifiers")
 
     def open(self, ctx, mode):
         from cogent3.app.data_store import DataStoreDirectory
@@ -324,6 +331,9 @@ DirAdapter.extra_views = _zip_view
 class SqliteAdapter(StoreAdapter):
     kind = "sqlite"
 
+    def obs_matches(self, spec_obs, ctx, real_ret):
+        return spec_obs in (None, "any", "shared-identifiers")
+
     def open(self, ctx, mode):
         from cogent3.app.sqlite_data_store import DataStoreSqlite
 
@@ -383,6 +393,8 @@ def check(run: Run):
     # (5) identifiers that are legal file names but read as PATTERNS by glob / fnmatch / Path.match (gene[1] matches gene1):
     # an identifier is a name, never a pattern.  Half a share of the quick budget (the first levels are replayed completely)
     cfgs.append("MC_DataStore_glob.cfg")
+    if os.environ.get("VERIF_C13_CFGS"):
+        cfgs = [c for c in cfgs if any(w in c for w in os.environ["VERIF_C13_CFGS"].split(","))]  # development aid
     logids = ["l1"]
     with Scratch("C13") as scratch:
         stats = {}
@@ -393,7 +405,8 @@ def check(run: Run):
             init = {"comp": {i: NONE for i in ids}, "nc": {i: NONE for i in ids}, "logs": {l: False for l in logids}, "mode": "w", "fresh": True}
             g_dir = Graph(recs)
             g_sql = Graph(r for r in recs if not (r["act"] in ("Write", "WriteNC", "DropNC") and r["args"][-1]))
-            budget = None if total is None or cfg == "MC_DataStore_single.cfg" else total // (len(cfgs) - 2)
+            nshares = max(1, sum(1 for c in cfgs if "single" not in c and "glob" not in c))
+            budget = None if total is None or cfg == "MC_DataStore_single.cfg" else total // nshares
             if budget is not None and cfg == "MC_DataStore_glob.cfg":
                 budget //= 2
             blind = DirAdapter(ids, logids, scratch)
